@@ -52,10 +52,13 @@ func fieldStoreTo(g *Graph, field string) NodePred {
 }
 
 // heldAt: mutex field mu of the receiver is held at node n on every path.
-func heldAt(g *Graph, n *Node, mu string) bool {
+func heldAt(g *Graph, n *Node, mu string) bool { return heldAtMode(g, n, mu, false) }
+
+// heldAtMode: with exclusive set, a read lock (RLock) does not count.
+func heldAtMode(g *Graph, n *Node, mu string, exclusive bool) bool {
 	isLock := func(x *Node) bool {
 		cn := CallName(x)
-		if cn != "(*sync.Mutex).Lock" && cn != "(*sync.RWMutex).Lock" && cn != "(*sync.RWMutex).RLock" {
+		if cn != "(*sync.Mutex).Lock" && cn != "(*sync.RWMutex).Lock" && (exclusive || cn != "(*sync.RWMutex).RLock") {
 			return false
 		}
 		if _, deferred := x.In.(deferredCall); deferred {
@@ -639,6 +642,101 @@ func runC10(c *Check) {
 		}
 	}
 	c.MinInstances("C10-R5", 3)
+
+	// ---- R10: "nothing to hand out" is a statement about the queue. Every return of Next that
+	// hands out no batch (a success return not preceded by the pop) is behind len(queue) == 0 — or
+	// behind a test of another field of the queue only if that field mirrors the queue: every
+	// function that writes the queue writes the field after each such write, on every path.
+	{
+		c.Doc("C10-R10", "GA+EO: every success return of Next that hands out no batch is behind len(queue) == 0, or behind a test of a field that every writer of the queue (AddBatch, Next, Load) updates after each write of the queue on every path (a counter that misses the batches reloaded at start-up reports an empty queue while accepted batches wait in it).")
+		g := BuildECFG(p, next, ExpandOpts{MaxDepth: 0})
+		c.NoteGraph(g)
+		recv := next.Params[0].Name()
+		pops := g.Select(fieldStoreTo(g, "queue"))
+		lenZero := func(f Fact) bool {
+			a, op, b, ok := canonCmp(f.Cond, f.Pol)
+			if !ok {
+				return false
+			}
+			isLen := func(t *Term) bool { return t.unconv().String() == "len("+recv+".queue)" }
+			isZero := func(t *Term) bool { u := t.unconv(); return u.Op == "const" && strings.HasPrefix(u.Name, "0") }
+			return (op == "==" && ((isLen(a) && isZero(b)) || (isLen(b) && isZero(a)))) || (op == "<=" && isLen(a) && isZero(b)) || (op == ">=" && isZero(a) && isLen(b))
+		}
+		// mirror(field): written in lock-step after every queue write in each of the three writers
+		mirror := func(field string) (bool, string) {
+			isW := func(g2 *Graph) NodePred {
+				st := fieldStoreTo(g2, field)
+				return func(n *Node) bool {
+					if st(n) {
+						return true
+					}
+					_, ok := isAtomicMutatorOn(n, field)
+					return ok
+				}
+			}
+			for _, m := range []*ssa.Function{add, next, load} {
+				g2 := BuildECFG(p, m, ExpandOpts{MaxDepth: 0})
+				qW := g2.Select(fieldStoreTo(g2, "queue"))
+				if len(qW) == 0 {
+					continue
+				}
+				w := isW(g2)
+				if pth := g2.PathAvoiding(qW, orPred(g2.SuccessExits(), nodeSet(qW)), w); pth != nil {
+					return false, fnShort(m) + " writes the queue at " + p.InstrPos(qW[0].In) + " and can return or write it again without updating " + field
+				}
+			}
+			return true, ""
+		}
+		nEmpty := 0
+		for _, x := range g.Exits {
+			if g.ExitClass(x) == rcA {
+				continue
+			}
+			xx := x
+			tgt := func(n *Node) bool { return n == xx }
+			if g.PathAvoiding([]*Node{g.Entry}, tgt, nodeSet(pops)) == nil {
+				continue // the return follows the pop: a batch is handed out
+			}
+			nEmpty++
+			facts := g.NecessaryEdges(tgt)
+			inst := "Next ⟂ empty-hand-out-only-on-empty-queue @" + p.InstrPos(x.In)
+			okLen := false
+			var other []string
+			for _, f := range facts {
+				if lenZero(f) {
+					okLen = true
+				}
+				f.Cond.Walk(func(t *Term) bool {
+					if t.Op == "field" && len(t.Args) == 1 && t.Args[0].String() == recv && t.Name != "queue" {
+						other = append(other, t.Name)
+					}
+					return true
+				})
+			}
+			switch {
+			case okLen:
+				c.OK("C10-R10", inst, fnName(next), p.InstrPos(x.In), "behind len(queue) == 0", true)
+			case len(other) > 0:
+				allMirror, why := true, ""
+				for _, fld := range other {
+					if ok, w := mirror(fld); !ok {
+						allMirror, why = false, w
+					}
+				}
+				if allMirror {
+					c.OK("C10-R10", inst, fnName(next), p.InstrPos(x.In), fmt.Sprintf("behind a test of %v, updated after every write of the queue in AddBatch, Next and Load", other), true)
+				} else {
+					c.Bad("C10-R10", inst, fnName(next), p.InstrPos(x.In), fmt.Sprintf("Next hands out nothing on a test of %v, which does not mirror the queue (%s): with accepted batches waiting in the queue the sequencer reports it empty, they are never handed out and still count against the bound", other, why), g.DescribePath(g.PathAvoiding([]*Node{g.Entry}, tgt, nodeSet(pops))))
+				}
+			default:
+				c.Bad("C10-R10", inst, fnName(next), p.InstrPos(x.In), "Next can return successfully without popping and without having found the queue empty: facts "+strings.Join(factStrings(facts), " ; "), g.DescribePath(g.PathAvoiding([]*Node{g.Entry}, tgt, nodeSet(pops))))
+			}
+		}
+		if nEmpty == 0 {
+			c.Unk("C10-R10", "Next ⟂ empty-hand-out", fnName(next), "", "anchor lost: Next has no success return that hands out nothing")
+		}
+		c.MinInstances("C10-R10", 1)
+	}
 
 	// ---- R6 lockset
 	nAcc := 0
